@@ -835,7 +835,7 @@ fn process_incoming_text_message<T: Read + Write>(
                                             &fc.all_msgs,
                                             stream,
                                             command,
-                                            params.split_once(' ').unwrap().1,
+                                            params.split_once(' ').map_or("", |p| p.1), // missing search params lead to a json parse err
                                         ) {
                                             websocket
                                                 .write_message(Message::Text(format!(
